@@ -1,6 +1,7 @@
 use crate::Stream;
 
 pub mod c04;
+pub mod c07;
 pub mod c08;
 pub mod dbg;
 pub mod ir;
@@ -19,6 +20,7 @@ pub fn lookup(name: &str) -> Option<Box<dyn Stream>> {
     match name {
         "c19" => Some(Box::new(c19::C19::new())),
         "c04" => Some(Box::new(c04::C04::new())),
+        "c07" => Some(Box::new(c07::C07::new())),
         "c14" => Some(Box::new(c14::C14::new())),
         "c20" => Some(Box::new(c20::C20::new())),
         "c18" => Some(Box::new(c18::C18::new())),
